@@ -66,6 +66,9 @@ func (s *PathState) has(v ssa.Value, depth int) bool {
 }
 
 // ConstOf returns the constant a value is known to equal on this path.
+// nonNilMarker stands in the constant environment for "some non-nil value" (a freshly boxed error selected at a phi).
+var nonNilMarker = ssa.NewConst(constant.MakeString("!nil"), types.Typ[types.String])
+
 func (s *PathState) ConstOf(v ssa.Value) (*ssa.Const, bool) {
 	if c, ok := v.(*ssa.Const); ok {
 		return c, true
@@ -241,6 +244,8 @@ func (q *PathQ) enter(st *PathState, pred *ssa.BasicBlock) {
 			u.tracked = true
 		} else if c, ok := st.ConstOf(op); ok && (q.AllConsts || branchRelevant(phi)) {
 			u.c = c
+		} else if _, boxed := op.(*ssa.MakeInterface); boxed && (q.AllConsts || branchRelevant(phi)) {
+			u.c = nonNilMarker
 		}
 		upds = append(upds, u)
 	}
@@ -285,6 +290,12 @@ func (s *PathState) evalBool(v ssa.Value, depth int) (val, known bool) {
 			}
 			if other != nil {
 				if s.Has(other) {
+					return x.Op == token.NEQ, true
+				}
+				if _, boxed := other.(*ssa.MakeInterface); boxed {
+					return x.Op == token.NEQ, true
+				}
+				if c, ok := s.ConstOf(other); ok && c == nonNilMarker {
 					return x.Op == token.NEQ, true
 				}
 				if c, ok := s.ConstOf(other); ok && c.Value == nil {
